@@ -14,7 +14,8 @@ _SETTING_MODULES = ["jellyfysh.setting", "jellyfysh.setting.hypercubic_setting",
 
 
 class Spec:
-    def __init__(self, name, ini, overrides=None, start=None, seed=12345, horizon=25, tags=()):
+    def __init__(self, name, ini, overrides=None, start=None, seed=12345, horizon=25, tags=(), info=None):
+        self.info = dict(info or {})
         self.name = name
         self.ini = ini
         self.overrides = dict(overrides or {})
@@ -26,7 +27,7 @@ class Spec:
     def to_json(self):
         return {"name": self.name, "ini": self.ini, "overrides": [[s, o, str(v)] for (s, o), v in
                                                                  sorted(self.overrides.items())],
-                "start": self.start, "seed": self.seed, "horizon": self.horizon}
+                "start": self.start, "seed": self.seed, "horizon": self.horizon, "info": self.info}
 
     @staticmethod
     def from_json(d):
@@ -36,7 +37,7 @@ class Spec:
         if start is not None:
             start = [(list(r[0]), [(list(p), c) for p, c in r[1]] if isinstance(r[1], list) else r[1]) for r in start]
         return Spec(d["name"], d["ini"], {(s, o): v for s, o, v in d.get("overrides", [])}, start, d.get("seed", 12345),
-                    d.get("horizon", 25))
+                    d.get("horizon", 25), info=d.get("info"))
 
 
 def _capture_globals():
@@ -79,11 +80,11 @@ def instantiate(template):
     return d["med"]
 
 
-def execute(template, baseline, deviations, horizon, monitors):
+def execute(template, baseline, deviations, horizon, monitors, info=None):
     med = instantiate(template)
     policy = Policy(baseline, deviations)
     with Seam(policy):
-        ex = Execution(med, policy, horizon, monitors).run()
+        ex = Execution(med, policy, horizon, monitors, info).run()
     policy.assert_all_hit()
     return ex
 
@@ -100,8 +101,10 @@ def _tpl(spec):
 def _summary(spec, baseline, deviations, ex):
     return {"spec": spec.name, "baseline": baseline, "deviations": sorted(deviations.items(), key=repr),
             "violations": list(ex.violations), "draws": list(ex.policy.draws), "outcome": ex.outcome(),
-            "commits": len(ex.commits), "legs": ex.legs, "ended": ex.ended, "handlers": dict(ex.stats),
-            "writes": len(ex.writes)}
+            "commits": len(ex.commits), "legs": ex.legs, "ended": ex.ended,
+            "handlers": {k: v for k, v in ex.stats.items() if not k.startswith("c17_")},
+            "writes": len(ex.writes), "c17_samples": ex.stats.get("c17_samples", 0),
+            "not_ended": ex.stats.get("c17_not_ended", 0), "final_time": None if ex.last_time is None else ex.last_time[0] + ex.last_time[1]}
 
 
 def run_item(item):
@@ -110,7 +113,7 @@ def run_item(item):
     tpl = _tpl(spec)
     out = []
     for devs in devs_list:
-        ex = execute(tpl, baseline, devs, horizon, monitors)
+        ex = execute(tpl, baseline, devs, horizon, monitors, spec.info)
         s = _summary(spec, baseline, devs, ex)
         if devs:
             s["draws"] = None  # only the default execution's draw list is needed by the enumerator
@@ -136,12 +139,15 @@ def build_all(specs, cores):
     return failures
 
 
-def explore(specs, monitors, k, baselines, cores, max_per_baseline=None):
+def explore(specs, monitors, k, baselines, cores, max_per_baseline=None, derive=None):
     """Enumerate all executions with <= k deviations around each baseline for every spec.
+    derive(spec, default summary) may return further specs (e.g. the same wiring with all time scales shortened so
+    that end-of-chain / sampling events fall inside the horizon); they are explored in the same way.
     Returns (summaries of violating executions, stats)."""
+    specs = list(specs)
     failures = build_all(specs, cores)
     stats = {"executions": 0, "outcomes": set(), "per_spec": collections.OrderedDict(), "capped": False,
-             "handlers": collections.Counter(), "build_failures": failures}
+             "handlers": collections.Counter(), "build_failures": failures, "derived": []}
     bad = []
     live = [s for s in specs if s.name in _TEMPLATES]
     # level 0: default executions
@@ -149,6 +155,20 @@ def explore(specs, monitors, k, baselines, cores, max_per_baseline=None):
     defaults = {}
     for (s, b, _, _, _), res in zip(items, par.pmap(run_item, items, cores)):
         defaults[(s.name, b)] = res[0]
+    if derive is not None:
+        extra = []
+        for s in live:
+            extra += derive(s, defaults[(s.name, baselines[0])]) or []
+        if extra:
+            stats["build_failures"] += build_all(extra, cores)
+            extra = [s for s in extra if s.name in _TEMPLATES]
+            items = [(s, b, [{}], s.horizon, monitors) for s in extra for b in baselines]
+            for (s, b, _, _, _), res in zip(items, par.pmap(run_item, items, cores)):
+                defaults[(s.name, b)] = res[0]
+            live += extra
+            specs += extra
+            stats["derived"] = [s.name for s in extra]
+            stats["derived_specs"] = extra
     level = []
     for s in live:
         ps = stats["per_spec"].setdefault(s.name, {"executions": 0, "outcomes": set(), "draws": 0, "commits": 0})
@@ -196,7 +216,7 @@ def _run_item_level2(item):
         for i in range(i0 + 1, len(draws)):
             for a in range(draws[i][1] - 1):
                 d2 = {k0: a0, draws[i][0]: a}
-                ex2 = execute(tpl, baseline, d2, horizon, monitors)
+                ex2 = execute(tpl, baseline, d2, horizon, monitors, spec.info)
                 s = _summary(spec, baseline, d2, ex2)
                 s["draws"] = None
                 out.append(s)
@@ -209,6 +229,8 @@ def _account(stats, ps, r, bad):
     stats["outcomes"].add((r["spec"], r["outcome"]))
     ps["outcomes"].add(r["outcome"])
     stats["handlers"].update(r["handlers"])
+    stats["c17_samples"] = stats.get("c17_samples", 0) + r.get("c17_samples", 0)
+    stats["not_ended"] = stats.get("not_ended", 0) + r.get("not_ended", 0)
     if r["violations"]:
         bad.append(r)
 
@@ -219,5 +241,6 @@ def replay_case(case, monitors):
     tpl = build_template(spec)
     def tup(x):
         return tuple(tup(y) for y in x) if isinstance(x, list) else x
-    ex = execute(tpl, case["baseline"], {tup(k): int(a) for k, a in case["deviations"]}, case["horizon"], monitors)
+    ex = execute(tpl, case["baseline"], {tup(k): int(a) for k, a in case["deviations"]}, case["horizon"], monitors,
+                 spec.info)
     return ex
